@@ -69,7 +69,34 @@ def build(inp: dict):
         if c == "keep":
             continue
         m.center = None if c is None else Point(float(c[0]), float(c[1]))
+    apply_history(inp, nl)
     return die
+
+
+def apply_history(inp: dict, nl) -> None:
+    """object histories that leave a centre Point shared by reference (all through the public API):
+       squares  — the die is built first, default squares are created afterwards (Module.create_square hands the
+                  module's centre Point to its rectangle);
+       pin      — a soft module's initial centre is the very Point object of a fixed module / terminal;
+       shared   — two movable modules were given the same Point object (coincident centres)."""
+    h = inp.get("history", "yaml")
+    mods = nl.modules
+    if h == "squares":
+        if all(m.center is not None and m.area() > 0 for m in mods):
+            nl.create_squares()
+        else:
+            for m in mods:
+                if m.num_rectangles == 0 and m.center is not None and m.area() > 0:
+                    m.create_square()
+    elif h in ("pin", "shared"):
+        want_fixed = h == "pin"
+        src = [m for m in mods if m.center is not None and m.is_fixed == want_fixed]
+        dst = [m for m in mods if not m.is_hard]
+        k = inp.get("history_pick", 0)
+        if src and dst:
+            a, b = src[k % len(src)], dst[(k // 7) % len(dst)]
+            if a is not b:
+                b.center = a.center
 
 
 def gen_instance(rng, big: bool = False) -> dict:
@@ -148,7 +175,10 @@ def gen_instance(rng, big: bool = False) -> dict:
             centers.append(None)  # a module without centre: Point()
         else:
             centers.append([rng.uniform(0, W), rng.uniform(0, H)])
-    return {"W": W, "H": H, "mods": mods, "nets": nets, "centers": centers}
+    r = rng.random()
+    history = "yaml" if r < 0.55 else ("squares" if r < 0.8 else ("pin" if r < 0.92 else "shared"))
+    return {"W": W, "H": H, "mods": mods, "nets": nets, "centers": centers, "history": history,
+            "history_pick": rng.randrange(1000)}
 
 
 # ------------------------------------------------------------------ wire format
@@ -193,7 +223,8 @@ def snapshot(die):
              [(r.center.x, r.center.y, r.shape.w, r.shape.h, r.region, r.fixed, r.hard, str(r.location)) for r in m.rectangles])
             for m in nl.modules]
     nets = [([b.name for b in e.modules], e.weight) for e in nl.edges]
-    return (die.width, die.height, mods, nets, len(nl.rectangles))
+    # NB: `nl.rectangles` is deliberately not read: it may rebuild the list and re-assign centres (new Point objects)
+    return (die.width, die.height, mods, nets, sum(len(m.rectangles) for m in nl.modules))
 
 
 def ulps(a: float, b: float, scale: float) -> float:
@@ -217,6 +248,7 @@ def check_layout_corr(ctx: Ctx, inp: dict) -> None:
     size = max(die.width, die.height)
     line0 = inst_line(die)
     has_all = all(m.center is not None for m in die.netlist.modules)
+    snap0, cen0 = snapshot(die), centres(die)
     try:
         d2, _ = FR.fruchterman_reingold_layout(deepcopy(die), kappa, max_iter=iters)
     except Exception as ex:  # the layout has no failing path for kappa > 0
@@ -224,6 +256,9 @@ def check_layout_corr(ctx: Ctx, inp: dict) -> None:
                       size=len(inp["mods"]))
         return
     got = centres(d2)
+    if snapshot(die) != snap0 or centres(die) != cen0:
+        ctx.spec_fail("layout:copy-isolated", inp, {"what": "running on a deepcopy changed the original die"}, size=len(inp["mods"]))
+    spec_on_output(ctx, inp, snap0, cen0, d2, d2, "layout")
     reqs = [f"F layout {f2hex(kappa)} {iters} {line0}", f"F wl {inst_line(d2)}"]
     tia_ok = True
     try:
@@ -463,7 +498,8 @@ def run(ctx: Ctx) -> None:
     ctx.rule = ("instances: die 3..25 (integer and decimal sizes), 1..8 (thorough 12) modules mixing soft / fixed (rectangles) / "
                 "terminal / fixed terminal / hard, 0..2n nets of arity 2..6 with default and explicit weights; the state is then "
                 "overridden: random centres, centres on the border and corners, coincident and nearly coincident (1e-12..1e-3) centres, "
-                "missing centre; kappa from the 0.4..1.5 table or uniform in (0.05, 3). Streams: `layout` = max_iter 1 (2/3 of cases) "
+                "missing centre; object history: as read from YAML / default squares created after the die (centre Point shared with the square) / "
+                "a soft module seeded with the Point object of a fixed module or pin / two movable modules sharing one Point; kappa from the 0.4..1.5 table or uniform in (0.05, 3). Streams: `layout` = max_iter 1 (2/3 of cases) "
                 "or 2..5 vs the Float model to 1e-9*size (+ wire length / overlap of the result); `long-run` = 6..30 (thorough 100) "
                 "iterations checked through the clauses; `force` = force_algorithm with 1..12 iterations, cost table recomputed, "
                 "model compared for <= 3 iterations; `clamp` = scalar clamp incl. NaN/inf. Non-trivial = at least one movable module.")
@@ -486,6 +522,7 @@ def run(ctx: Ctx) -> None:
         inp["stream"] = "layout"
         ctx.count(f"layout-iters-{min(inp['iters'], 2)}{'+' if inp['iters'] >= 2 else ''}")
         ctx.count(f"modules-{len(inp['mods'])}")
+        ctx.count("history-" + inp["history"])
         check_layout_corr(ctx, inp)
     for i in range(ctx.n(80, 1000)):
         inp = gen_instance(rng, big=ctx.tier != "quick")
